@@ -65,7 +65,7 @@ CFG = {
     "rule": "two levels, one op grammar. (A) builder level: builder programs (push_sync, push_async, push_fallback, "
             "push_async_out_of_order(_with_nonce) with Some/None views, next_id, new(clone_id)+append, finish, take_chunks) run "
             "against the real StreamBuilder through its public API, futures = oneshot receivers, the real Stream polled by hand "
-            "with a no-op waker; (B) view level: view trees as data (elements, text, tuples, Vec, Suspend::new(async{rx.await; view}), "
+            "with a no-op waker; (B) view level: view trees as data (elements incl. <textarea> and a `title` attribute, text incl. strings that need escaping, tuples, Vec, Suspend::new(async{rx.await; view}), "
             "<Suspense>/<Transition> with fallback, <Await>, <ErrorBoundary>, server resources under a boundary: OnceResource / "
             "Resource / AsyncDerived read synchronously (`move || res.get().map(..)`, also in the output of a Suspend / of another read) or awaited in a Suspend, LocalResource "
             "read synchronously or awaited (first thing, or after another future: free mode only) by a boundary's children "
@@ -97,7 +97,12 @@ CFG = {
                  "SuspenseBoundary::to_html_async_with_buf (Suspense, Transition, Await), ErrorBoundaryView::to_html_async_with_buf, "
                  "RenderHtml::to_html_stream_in_order/out_of_order"],
     "assumptions": [
-        "pushed strings are ASCII and contain no marker/template/script syntax of their own (tachys escapes `<` in text)",
+        "text atoms, <textarea> text and `title` attribute values include strings that need escaping (`<`, `&`, `>`, a double quote, "
+        "`</textarea>`, a leading line feed, the stream's own marker / template / script syntax), also after a still-pending "
+        "sibling and inside content that resolves later (round-4 seed 3); the driver prints them with Model/Html (C06's printer: "
+        "escapeText, escapeAttr, elemBody for <textarea>). A <textarea> has exactly one text child in the grammar; with an "
+        "asynchronous child its text is not escaped (F-C07-10, known class textarea-async-child, harness-only demonstration "
+        "corpus/C07/F-C07-10-textarea-async-child.ops.pending). Builder-level strings (level A) stay free of marker syntax",
         "server resources that are read synchronously are created before the view is built (as a component body does), one per "
         "(kind, future); a resource created and awaited inside the output of a Suspend under a boundary needs one more executor "
         "turn: same document, generated in free mode only (final document compared). A resource read synchronously for the first "
